@@ -30,15 +30,17 @@ use crate::fdl::{FdlApplication, FdlActiveStation, HighPrioOnly, TelegramTx, Dat
 const MAXS: usize = 4;
 
 fn occupied_from(m: &DpMaster, from: usize) -> Option<usize> {
+    // constant trip count (MAXS) so that CBMC does not unroll on a symbolic bound
     let n = slots(&m.peripherals);
-    let mut i = from;
-    while i < n {
-        if peek(&m.peripherals, i).is_some() {
-            return Some(i);
+    let mut found = None;
+    let mut i = 0;
+    while i < MAXS {
+        if i < n && i >= from && found.is_none() && peek(&m.peripherals, i).is_some() {
+            found = Some(i);
         }
         i += 1;
     }
-    None
+    found
 }
 
 /// Does the cycle index `c` denote slot `s` (first occupied slot at or after the index)?
@@ -143,16 +145,15 @@ fn check_master_transmit(m: &mut DpMaster, fdl: &FdlActiveStation) {
             ssap: Some(62),
             fc: FunctionCode::Request { fcb: FrameCountBit::Inactive, req: RequestType::SdnLow },
         };
-        let mut expect = [0u8; 24];
         let cmd = if op == OperatingState::Clear { 0x02 } else { 0x00 };
-        let elen = ref_encode(&h, 2, |i| if i == 0 { cmd } else { 0 }, &mut expect);
         match res {
             Some(r) => {
-                assert!(r.bytes_sent() == elen && r.expects_reply().is_none(), "C14/global-control: global control is an unacknowledged broadcast");
-                let mut i = 0;
-                while i < elen {
-                    assert!(buf[i] == expect[i], "C14/global-control: global control bytes equal the reference frame");
-                    i += 1;
+                assert!(r.expects_reply().is_none(), "C14/global-control: global control is an unacknowledged broadcast");
+                match crate::fdl::Telegram::deserialize(&buf[..r.bytes_sent()]) {
+                    Some(Ok((crate::fdl::Telegram::Data(t), _))) => {
+                        assert!(t.h == h && t.pdu.len() == 2 && t.pdu[0] == cmd && t.pdu[1] == 0, "C14/global-control: global control is the reference broadcast (DA 127, DSAP 58, SSAP 62, SDN low, [state, 0])");
+                    }
+                    _ => assert!(false, "C14/global-control: global control is a well-formed data telegram"),
                 }
             }
             None => assert!(false, "C14/global-control: global control is sent when it is due"),
@@ -176,17 +177,15 @@ fn check_master_transmit(m: &mut DpMaster, fdl: &FdlActiveStation) {
     };
     // first slot at/after the index that wants to send / that goes offline
     let mut first_sender: Option<usize> = None;
-    let mut i = n;
-    while i > idx0 {
-        i -= 1;
-        if pre[i].is_some() && sends[i] {
+    let mut i = 0;
+    while i < MAXS {
+        if i < n && i >= idx0 && first_sender.is_none() && pre[i].is_some() && sends[i] {
             first_sender = Some(i);
         }
-    }
-    let mut i = 0;
-    while i < idx0 && i < n {
-        if let (Some(a), Some(p)) = (pre[i], peek(&m.peripherals, i)) {
-            assert!(snap(p) == a, "C14/order: slots before the cycle index are not served again in this cycle");
+        if i < n && i < idx0 {
+            if let (Some(a), Some(p)) = (pre[i], peek(&m.peripherals, i)) {
+                assert!(snap(p) == a, "C14/order: slots before the cycle index are not served again in this cycle");
+            }
         }
         i += 1;
     }
@@ -206,10 +205,12 @@ fn check_master_transmit(m: &mut DpMaster, fdl: &FdlActiveStation) {
                 assert!(first_sender.is_none(), "C14/cycle: 'cycle completed' only when every remaining peripheral had its turn and declined");
                 assert!(m.state.cycle_state == CycleState::DataExchange(0), "C14/cycle: the next cycle starts at the first slot");
                 // everybody at/after the index was visited: those to be declared offline are offline now
-                let mut i = idx0;
-                while i < n {
-                    if let Some(p) = peek(&m.peripherals, i) {
-                        assert!(!off[i] || !snap(p).live, "C14/cycle: a completed cycle has given every remaining peripheral its turn");
+                let mut i = 0;
+                while i < MAXS {
+                    if i < n && i >= idx0 {
+                        if let Some(p) = peek(&m.peripherals, i) {
+                            assert!(!off[i] || !snap(p).live, "C14/cycle: a completed cycle has given every remaining peripheral its turn");
+                        }
                     }
                     i += 1;
                 }
@@ -277,7 +278,7 @@ macro_rules! any_slot {
 }
 
 #[kani::proof]
-#[kani::unwind(16)]
+#[kani::unwind(10)]
 #[kani::stub(crate::dp::peripheral::Peripheral::transmit_telegram, crate::dp::peripheral::verif::abs_transmit_telegram)]
 fn c14_master_transmit_2slots_q() {
     let fdl = any_fdl();
@@ -292,7 +293,7 @@ fn c14_master_transmit_2slots_q() {
 }
 
 #[kani::proof]
-#[kani::unwind(16)]
+#[kani::unwind(10)]
 #[kani::stub(crate::dp::peripheral::Peripheral::transmit_telegram, crate::dp::peripheral::verif::abs_transmit_telegram)]
 fn c14_master_transmit_3slots_t() {
     let fdl = any_fdl();
